@@ -299,7 +299,9 @@ def POWER(number, power):
     power = utils.parse_number(power)
     if utils.any_is_error((number, power)):
         return error.VALUE
-    result = number**power
+    result = utils.power(number, power)
+    if isinstance(result, error.XLError):
+        return result
     if math.isnan(result):
         return error.NUM
     return result
